@@ -15,7 +15,7 @@ pub struct Case13 {
     pub doc: DocD,
     /// overlay layer (index, layer) or none
     pub overlay: Option<(usize, LayerD)>,
-    /// L1..L12
+    /// L1..L13
     pub law: u8,
     /// law parameters: (index, dx, dy, seed)
     pub p: (usize, i32, i32, u64),
@@ -401,7 +401,7 @@ fn run(case: &Case13) -> Option<(String, Value)> {
                     }
                     let Some((li, ci)) = top else { continue };
                     let t = d.layers[li].cells[ci].clone();
-                    if !d.layers[li].alpha || (t.fg == TR) == (t.bg == TR) {
+                    if !d.layers[li].alpha || (t.fg != TR && t.bg != TR) {
                         continue;
                     }
                     // beneath: a solid normal-mode cell before any opaque layer, and no other transparent-colour cell here
@@ -442,11 +442,64 @@ fn run(case: &Case13) -> Option<(String, Value)> {
                     let raw = base.layers[li].get_char((lx, ly));
                     let expected = base.make_solid_color(raw, under);
                     let got = base.get_char((x, y));
+                    // over a solid cell nothing transparent is left (also when both colours of the topmost cell were transparent)
+                    if got.is_visible() && (got.attribute.get_foreground() == TR || got.attribute.get_background() == TR) {
+                        return Some((
+                            "stacking|L12-transparent-colour-left-unresolved-over-a-solid-cell".into(),
+                            json!({"x": x, "y": y, "topmost_cell": describe(&raw), "shown_without_it": describe(&under), "shown": describe(&got)}),
+                        ));
+                    }
                     if !same(&got, &expected) {
                         return Some((
                             "stacking|L12-transparent-colour-shows-the-cell-beneath-as-displayed".into(),
                             json!({"x": x, "y": y, "topmost_cell": describe(&raw), "shown_without_it": describe(&under), "shown": describe(&got), "expected": describe(&expected)}),
                         ));
+                    }
+                }
+            }
+            None
+        }
+        13 => {
+            // a chars-mode layer contributes glyphs only: where the first normal-mode contribution at a position is a cell
+            // with solid colours (no opaque layer without a cell before it, no transparent-colour cell), the colours shown
+            // are the same with every chars-mode layer hidden
+            if case.overlay.is_some() || !d.layers.iter().any(|l| l.mode == 1 && l.visible) {
+                return None;
+            }
+            let mut d2 = d.clone();
+            for l in d2.layers.iter_mut().filter(|l| l.mode == 1) {
+                l.visible = false;
+            }
+            let b2 = build(&d2, &None);
+            for y in bb.1..bb.3 {
+                for x in bb.0..bb.2 {
+                    let mut ok = false;
+                    for l in d.layers.iter().rev() {
+                        let (lx, ly) = (x - l.ox, y - l.oy);
+                        if !l.visible || lx < 0 || ly < 0 || lx >= l.w || ly >= l.h {
+                            continue;
+                        }
+                        let cell = l.cells.iter().rev().find(|c| c.x == lx && c.y == ly && c.attr & icy_engine::attribute::INVISIBLE == 0);
+                        match (l.mode, cell) {
+                            (0, Some(c)) => {
+                                ok = c.fg != TR && c.bg != TR;
+                                break;
+                            }
+                            (0, None) => {
+                                if !l.alpha {
+                                    break;
+                                }
+                            }
+                            (_, Some(c)) if c.fg == TR || c.bg == TR => break,
+                            _ => {}
+                        }
+                    }
+                    if !ok {
+                        continue;
+                    }
+                    let (ca, cb) = (base.get_char((x, y)), b2.get_char((x, y)));
+                    if ca.is_visible() != cb.is_visible() || (ca.is_visible() && (ca.attribute.get_foreground() != cb.attribute.get_foreground() || ca.attribute.get_background() != cb.attribute.get_background())) {
+                        return report("L13-chars-layers-hidden-colours-change", "every chars-mode layer hidden".into(), (x, y, ca, cb));
                     }
                 }
             }
@@ -512,7 +565,7 @@ pub struct C13 {}
 impl C13 {
     fn case_for(&self, ctx: &Ctx, k: u64) -> Case13 {
         let mut rng = ctx.rng(k);
-        let law = 1 + (k % 12) as u8;
+        let law = 1 + (k % 13) as u8;
         let normal_only = law == 6 || law == 7 || law == 9 || (law != 10 && rng.chance(1, 3));
         let transparent = law == 7 || law == 9 || law == 11 || law == 12 || (law != 6 && rng.chance(1, 2));
         let mut d = DocD::single(10, 6);
@@ -542,6 +595,27 @@ impl C13 {
                         l.cells.push(CellD { x, y, ch, fg, bg, attr: 0, fp: 0 });
                     }
                 }
+            }
+        }
+        if law == 13 && d.layers.len() >= 3 {
+            let n = d.layers.len();
+            for (i, l) in d.layers.iter_mut().enumerate() {
+                l.visible = true;
+                l.ox = rng.range(-1, 2) as i32;
+                l.oy = rng.range(-1, 2) as i32;
+                l.mode = if i == 0 { 0 } else if i == n - 1 { if rng.bool() { 1 } else { 2 } } else { *rng.pick(&[0u8, 1, 2, 2]) };
+                l.cells.clear();
+                for y in 0..l.h {
+                    for x in 0..l.w {
+                        if rng.chance(1, 3) {
+                            continue;
+                        }
+                        l.cells.push(CellD { x, y, ch: *rng.pick(&[0x41u32, 0x51, 0xDB, 0x20, 0xDC]), fg: rng.below(16) as u32, bg: rng.below(8) as u32, attr: 0, fp: 0 });
+                    }
+                }
+            }
+            if !d.layers.iter().any(|l| l.mode == 1) {
+                d.layers[n - 1].mode = 1;
             }
         }
         if law == 10 && !d.layers.iter().any(|l| l.mode == 2) {
@@ -591,7 +665,11 @@ impl C13 {
                         }
                         let (ch, fg, bg) = if top {
                             let ch = *rng.pick(&[0xDCu32, 0xDF, 0xDC, 0xDF, 0x41]);
-                            if rng.bool() { (ch, rng.below(16) as u32, TR) } else { (ch, TR, rng.below(8) as u32) }
+                            match rng.usize(5) {
+                                0 => (ch, TR, TR),
+                                1 | 2 => (ch, rng.below(16) as u32, TR),
+                                _ => (ch, TR, rng.below(8) as u32),
+                            }
                         } else {
                             (*rng.pick(&[0xDCu32, 0xDF, 0xDB, 0x41, 0x20, 0xDD]), rng.below(16) as u32, rng.below(8) as u32)
                         };
@@ -600,7 +678,7 @@ impl C13 {
                 }
             }
         }
-        let overlay = if law != 6 && law != 7 && law != 9 && law != 12 && rng.chance(1, 4) {
+        let overlay = if law != 6 && law != 7 && law != 9 && law != 12 && law != 13 && rng.chance(1, 4) {
             let mut l = gen_layer(&mut rng, true, false);
             l.alpha = true;
             l.visible = true;
@@ -655,7 +733,7 @@ impl Prop for C13 {
         "C13"
     }
     fn rule(&self) -> &'static str {
-        "stacks of 1..=5 layers (sizes 1..=12 x 1..=8, offsets -4..=6, normal/chars/attributes mode, alpha or opaque, visible or hidden, sparse content incl. transparent-colour half blocks, a third of the layers storing no rows beyond their last cell - none at all when they hold no cell -, optional overlay) are queried with Buffer::get_char at every position of the bounding box plus a 2-cell border before and after a transformation that the stacking laws say is invisible: L1 insert an empty alpha layer at a stack index; L2 rewrite the cells of a hidden layer; L3 translate every layer and the overlay by d and query at p+d; L4 remove all layers below a visible opaque normal-mode layer and query inside its rectangle (also where the opaque layer's own cell uses the transparent colour); L5 move a layer and query positions it covers neither before nor after; L6 compare with a 15-line reference compositor on the fragment 'all layers normal mode, no transparent colours, no overlay'; L7 on normal-mode stacks with transparent-colour cells the topmost visible cell supplies the glyph and each of its own non-transparent colours; L8 give the invisible cells of alpha layers a payload (glyph, colours, flags next to the INVISIBLE flag); L9 where the topmost cell is a half block (220/223) with one transparent colour above another half block, change the colour of the lower cell's half that lies behind the topmost cell's solid half; L10 exchange the glyphs stored in attributes-mode layers (blank <-> non-blank); L11 the first opaque contribution ends the walk: where the layers from a visible normal-mode layer i upward, with a cell of layer i at the position, show a visible cell with solid colours, the whole stack shows the same cell (two thirds of these stacks have a dense attributes- or chars-mode layer on top); L12 a transparent colour shows the cell beneath as it is displayed: where the topmost cell (alpha layer, only normal-mode layers above) has one transparent colour and a solid cell follows beneath before any opaque layer, the position shows that cell resolved with Buffer::make_solid_color against what the position shows once the cell is taken away - with chars- and attributes-mode layers in between. Invisible results are compared as invisible only. distinct_nontrivial = distinct (law, stack shape, parameters) instances"
+        "stacks of 1..=5 layers (sizes 1..=12 x 1..=8, offsets -4..=6, normal/chars/attributes mode, alpha or opaque, visible or hidden, sparse content incl. transparent-colour half blocks, a third of the layers storing no rows beyond their last cell - none at all when they hold no cell -, optional overlay) are queried with Buffer::get_char at every position of the bounding box plus a 2-cell border before and after a transformation that the stacking laws say is invisible: L1 insert an empty alpha layer at a stack index; L2 rewrite the cells of a hidden layer; L3 translate every layer and the overlay by d and query at p+d; L4 remove all layers below a visible opaque normal-mode layer and query inside its rectangle (also where the opaque layer's own cell uses the transparent colour); L5 move a layer and query positions it covers neither before nor after; L6 compare with a 15-line reference compositor on the fragment 'all layers normal mode, no transparent colours, no overlay'; L7 on normal-mode stacks with transparent-colour cells the topmost visible cell supplies the glyph and each of its own non-transparent colours; L8 give the invisible cells of alpha layers a payload (glyph, colours, flags next to the INVISIBLE flag); L9 where the topmost cell is a half block (220/223) with one transparent colour above another half block, change the colour of the lower cell's half that lies behind the topmost cell's solid half; L10 exchange the glyphs stored in attributes-mode layers (blank <-> non-blank); L11 the first opaque contribution ends the walk: where the layers from a visible normal-mode layer i upward, with a cell of layer i at the position, show a visible cell with solid colours, the whole stack shows the same cell (two thirds of these stacks have a dense attributes- or chars-mode layer on top); L12 a transparent colour shows the cell beneath as it is displayed: where the topmost cell (alpha layer, only normal-mode layers above) has one transparent colour and a solid cell follows beneath before any opaque layer, the position shows that cell resolved with Buffer::make_solid_color against what the position shows once the cell is taken away - with chars- and attributes-mode layers in between - and nothing transparent is left over a solid cell, also when both colours of the topmost cell were transparent; L13 a chars-mode layer contributes glyphs only: where the first normal-mode contribution is a cell with solid colours, the colours shown are the same with every chars-mode layer hidden. Invisible results are compared as invisible only. distinct_nontrivial = distinct (law, stack shape, parameters) instances"
     }
     fn meta(&self, ctx: &Ctx) -> Value {
         json!({"floor_evaluations": 5000, "floor_distinct": ctx.tier.pick(5000u64, 100000u64),
